@@ -46,7 +46,21 @@ class Header12:
             if isinstance(v, tuple) and v and v[0] == "slice":
                 self.reads.append(v[1])
                 return self.words.get(v[1], Opaque(("bytes", v[1])))
+            if isinstance(v, tuple) and v and v[0] == "arrayvals" and v[1] and \
+                    all(isinstance(x, tuple) and x and x[0] == "byte" for x in v[1]):
+                # `from_be_bytes([data[a], data[a + 1]])`: consecutive single-byte reads are one big-endian read
+                pos = [x[1] for x in v[1]]
+                if pos == list(range(pos[0], pos[0] + len(pos))):
+                    rng0 = (pos[0], pos[0] + len(pos))
+                    self.reads.append(rng0)
+                    return self.words.get(rng0, Opaque(("bytes", rng0)))
             return Opaque("from_be_bytes")
+
+        def index_byte(base, ix):
+            if ix >= self.length:
+                return Opaque("index out of the buffer")
+            return ("byte", ix, None)
+        h[("index_byte",)] = index_byte
 
         h[("call", "core::slice::index::<impl std::ops::Index<I> for [T]>::index")] = index
         h[("call", "core::slice::<impl [T]>::get")] = get
